@@ -284,7 +284,7 @@ def parse_assumptions(out):
             mode = False
             continue
         if mode:
-            m = re.match(r"^([A-Za-z_][A-Za-z0-9_.']*)\s*:", line)
+            m = re.match(r"^([A-Za-z_][A-Za-z0-9_.']*)\s*(:|$)", line)
             if m:
                 axioms.add(m.group(1))
             elif line and not line.startswith(" "):
@@ -306,8 +306,8 @@ def coq_run(ctx, name, text, timeout=900):
 
 
 def coq_run_many(ctx, files, timeout=900, jobs=12):
-    """files: list of (name, text).  Compiles in parallel; returns dict name -> (ok, out)."""
-    procs = []
+    """files: list of (name, text).  Compiles in parallel; returns dict name -> (ok, out).
+    Output goes to a file (a pipe would block coqc once 64 KB are printed)."""
     res = {}
     pending = list(files)
     running = []
@@ -317,17 +317,19 @@ def coq_run_many(ctx, files, timeout=900, jobs=12):
             path = os.path.join(ctx.scratch, name + ".v")
             with open(path, "w") as f:
                 f.write(text)
+            outf = open(path + ".out", "w")
             p = subprocess.Popen(["timeout", str(timeout), "coqc", "-q", "-Q", os.path.join(COQ, "theories"), "Polar",
                                   "-Q", os.path.join(COQ, "gen"), "PolarGen", "-Q", ctx.scratch, "Cases",
-                                  "-w", "-notation-overridden,-deprecated-hint-without-locality,-deprecated-instance-without-locality,-ambiguous-paths",
-                                  path], cwd=ctx.scratch, stdout=subprocess.PIPE, stderr=subprocess.STDOUT, text=True)
-            running.append((name, p))
+                                  "-w", COQ_WARN, path], cwd=ctx.scratch, stdout=outf, stderr=subprocess.STDOUT, text=True)
+            running.append((name, p, outf, path + ".out"))
         still = []
-        for name, p in running:
+        for name, p, outf, opath in running:
             if p.poll() is None:
-                still.append((name, p))
+                still.append((name, p, outf, opath))
             else:
-                res[name] = (p.returncode == 0, p.stdout.read())
+                outf.close()
+                with open(opath) as f:
+                    res[name] = (p.returncode == 0, f.read())
         running = still
         if running:
             time.sleep(0.05)
